@@ -9,6 +9,7 @@ import (
 	"verif/harness/checks"
 	"verif/harness/core"
 	"verif/harness/eco"
+	"verif/harness/gen"
 )
 
 func main() {
@@ -28,6 +29,11 @@ func main() {
 			seed = n
 		}
 	}
+	repo := os.Getenv("VERIF_REPO")
+	if repo == "" {
+		repo = "/repo"
+	}
+	gen.LoadDictionary(repo)
 	dir := os.Getenv("VERIF_DIR")
 	if dir == "" {
 		dir = "/verif"
@@ -55,6 +61,8 @@ func main() {
 			c.Workers = n
 		}
 	}
+	dw, dn := gen.DictSizes()
+	c.Note("source_dictionary", map[string]int{"words": dw, "numbers": dn})
 	ck.Run(c)
 	os.Exit(c.Finish(ck.Rule, ck.Assumptions, ck.MinEvals))
 }
